@@ -297,9 +297,43 @@ func C01(ctx *Ctx) {
 			if r.Dispatched != nil {
 				via = r.Dispatched.Name()
 			}
+			// architectural state at exit = the copies that are authoritative under the
+			// *exit* widths. Every leaf of a field's gated term on which the field is
+			// (or may be) authoritative at exit must be free of atoms that were stale at
+			// entry — including the field's own stale entry value (a width switch that
+			// does not rebuild the copy).
+			govern := map[string]struct {
+				flag string
+				auth uint64
+			}{"RA": {"M", 0}, "RAl": {"M", 1}, "RAh": {"M", 1}, "RX": {"X", 0}, "RY": {"X", 0}, "RXl": {"X", 1}, "RYl": {"X", 1}}
+			// emulation mode forces 8-bit registers: E=1 with M=0 or X=0 is not a valid processor state
+			validState := c.E == 0 || (c.M == 1 && c.X == 1)
 			for name, fv := range r.Final {
-				if s := staleIn(fv); s != "" && "cpu."+name != s {
-					authBad.add(fmt.Sprintf("%s:%s:%s->%s", rs, via, strings.TrimPrefix(s, "cpu."), name), c.Opcode, "", fmt.Sprintf("cell %s: %s = %s", cellS, name, fmtVal(fv)))
+				if !validState {
+					break
+				}
+				iv, isInt := fv.(*absint.Int)
+				if !isInt {
+					if s := staleIn(fv); s != "" && "cpu."+name != s {
+						authBad.add(fmt.Sprintf("%s:%s:%s->%s", rs, via, strings.TrimPrefix(s, "cpu."), name), c.Opcode, "", fmt.Sprintf("cell %s: %s = %s", cellS, name, fmtVal(fv)))
+					}
+					continue
+				}
+				g, governed := govern[name]
+				for _, lf := range termLeaves(iv.Lin, nil, 64) {
+					if governed {
+						if fl, ok := r.Final[g.flag].(*absint.Int); ok {
+							ex := absint.Restrict(fl.Lin, lf.guards)
+							if ex.IsConst() && ex.C != g.auth {
+								continue // not authoritative at exit on this path: invisible
+							}
+						}
+					}
+					for _, d := range absint.LinDeps(lf.lin) {
+						if stale[d.Key] {
+							authBad.add(fmt.Sprintf("%s:%s:%s->%s", rs, via, strings.TrimPrefix(d.Key, "cpu."), name), c.Opcode, "", fmt.Sprintf("cell %s: on the path %v, %s = %s", cellS, lf.guards, name, trunc(lf.lin.Key())))
+						}
+					}
 				}
 			}
 			for _, a := range r.Accesses {
@@ -398,4 +432,38 @@ func C01(ctx *Ctx) {
 func linPlus(v *absint.Int, d int) string {
 	o := absint.Ops{In: absint.NewInterner()}
 	return o.Add(v, absint.NewConst(v.W, uint64(int64(d)), false)).Lin.Key()
+}
+
+type termLeaf struct {
+	guards map[string]bool
+	lin    *absint.Lin
+}
+
+// termLeaves expands the gated merges of a term into its guarded alternatives.
+func termLeaves(l *absint.Lin, guards map[string]bool, budget int) []termLeaf {
+	if guards == nil {
+		guards = map[string]bool{}
+	}
+	l = absint.Restrict(l, guards)
+	for _, t := range l.T {
+		if t.A.IteT != nil {
+			if _, done := guards[t.A.IteCond]; done {
+				continue
+			}
+			if budget <= 1 {
+				break
+			}
+			var out []termLeaf
+			for _, v := range []bool{true, false} {
+				g := map[string]bool{}
+				for k, x := range guards {
+					g[k] = x
+				}
+				g[t.A.IteCond] = v
+				out = append(out, termLeaves(l, g, budget/2)...)
+			}
+			return out
+		}
+	}
+	return []termLeaf{{guards, l}}
 }
